@@ -1,4 +1,5 @@
 import Proofs.BladeMapP
+import Proofs.Recip
 
 /-! # C18 — MVArray, Frame and BladeMap behave as element-wise / linear lifts
 
@@ -35,5 +36,28 @@ def exPairs : Pairs ℤ (Fin 2) (Fin 2) 1 := ⟨fun _ => 0, fun _ => 1, fun _ =>
 example : bwd exPairs (fwd exPairs (fun c => if c = 0 then 5 else 7)) 0 = 5 := by
   rw [blademap_twice exPairs (fun a b _ => Subsingleton.elim a b) (fun a b _ => Subsingleton.elim a b) (by intro p; rfl) (by intro p; rfl)]
   simp [exPairs]
+
+end C18
+
+/-! ## reciprocal frame (canonical model: any dimension and signature, any commutative ring in which 2 is invertible) -/
+namespace C18
+variable {R : Type} [CommRing R] {n : Nat} {sig : Nat → R}
+
+/-- `Frame.En = reduce(op, vectors)` is the right-nested outer product the theorem is stated with -/
+theorem frame_volume_element (p : CMV n R) (ps : List (CMV n R)) : wedgeList n p ps = wprod n (p :: ps) := wedgeList_eq_wprod n p ps
+
+/-- **`Frame.inv`**: for vectors `a_1 … a_m` with invertible volume element `E`, the `k`-th reciprocal vector
+    `a^k = (−1)^k (a_1 ∧ … ǎ_k … ∧ a_m) E⁻¹` (`k = |pre|`) satisfies `a_k ⌋ a^k = 1` and `a_i ⌋ a^k = 0` for `i ≠ k` -/
+theorem reciprocal_frame (half : R) (hhalf : 2 * half = 1) (pre post : List (CMV n R)) (a : CMV n R)
+    (hvec : ∀ v ∈ pre ++ a :: post, IsHom n 1 v) (Einv : Cl n sig)
+    (h1 : (asCl (wprod n (pre ++ a :: post)) : Cl n sig) * Einv = 1) (h2 : Einv * asCl (wprod n (pre ++ a :: post)) = 1) :
+    (asCl (mmul n sig Model.lcmtCheck a ((sgn pre.length : R) • ((asCl (wprod n (pre ++ post)) : Cl n sig) * Einv))) : Cl n sig) = 1
+    ∧ ∀ x ∈ pre ++ post,
+        (asCl (mmul n sig Model.lcmtCheck x ((sgn pre.length : R) • ((asCl (wprod n (pre ++ post)) : Cl n sig) * Einv))) : Cl n sig) = 0 :=
+  _root_.reciprocal_frame half hhalf pre post a hvec Einv h1 h2
+
+/-- the scalar read by `float(a_i | a^j)` — the grade-0 component of the coded inner product — is that of the contraction -/
+theorem inner_scalar_is_contraction_scalar (x Y : CMV n R) (hx : IsHom n 1 x) :
+    mmul n sig Model.imtCheck x Y fzero = mmul n sig Model.lcmtCheck x Y fzero := inner_scalar_part_eq_lc n sig x Y hx
 
 end C18
